@@ -60,7 +60,7 @@ CLASSES = (['tr-m-minus1:' + a for a in ('surf-tr', 'trcl-num', 'fill-num',
               'imp-unequal', 'imp-short', 'lattice-arg-malformed']
            + [f'material-mixed-sign:{b}-{w}' for b in ('pos', 'neg')
               for w in ('first', 'mid', 'last')])
-_PER = {'quick': 3, 'thorough': 60}
+_PER = {'quick': 3, 'thorough': 400}
 
 # parameter counts MCNP accepts for cards with optional entries
 VALID_COUNTS = {'p': {4, 9}, 'kx': {2, 3}, 'ky': {2, 3}, 'kz': {2, 3},
